@@ -205,7 +205,7 @@ func (r *Report) Finish(known []KnownFinding, ri runInfo) int {
 				s.Undecided++
 				nUnd++
 			}
-			if _, ok := knownSet[o.Rule+" "+o.Key]; ok {
+			if _, ok := knownSet[o.Rule+" "+strings.TrimPrefix(o.Key, "[386] ")]; ok {
 				o.Known = true
 				knownHit = append(knownHit, o)
 			} else {
@@ -236,7 +236,7 @@ func (r *Report) Finish(known []KnownFinding, ri runInfo) int {
 		}
 	}
 	for _, o := range knownHit {
-		k := knownSet[o.Rule+" "+o.Key]
+		k := knownSet[o.Rule+" "+strings.TrimPrefix(o.Key, "[386] ")]
 		fmt.Printf("KNOWN-FINDING: property=%s %s [%s %s] at %s: %s\n", r.Prop, k.What, o.Rule, o.Key, o.Pos, oneLine(o.Detail))
 	}
 	exit := 0
